@@ -169,11 +169,11 @@ fn import_extension_fields(node: &mut Node, doc: &mut RustDocument, base_fields:
             }
         }
 
-        // the content of the extension: its sequence and the attributes it declares itself (an
-        // extension may consist of attributes only)
+        // the content of the extension: its sequence or choice and the attributes it declares itself
+        // (an extension may consist of attributes only)
         if base
             .children()
-            .any(|n| n.is_element() && matches!(n.tag_name().name(), "sequence" | "attribute"))
+            .any(|n| n.is_element() && matches!(n.tag_name().name(), "sequence" | "choice" | "attribute"))
         {
             import_sequence_node_fields(&mut base, doc, base_fields)?;
         }
